@@ -42,5 +42,7 @@ func runC16(r *oblig.Report) {
 	r.Analysed["name_rules"] = nameRules
 	e9pos.OffendingTokens(c.P, r, "R9.3", notifyingMethods, nameRules)
 	e9pos.MergeErrors(c.P, r, "R9.4")
+	r.Rule("R9.6", "instance-table", "the column of a merge conflict is the first occurrence of the name on its line", 1)
+	e9pos.ColumnIsFirstOccurrence(c.P, r, "R9.6")
 	e9pos.Finders(c.P, r, "R9.5", w.LexerG)
 }
